@@ -145,6 +145,11 @@ structure GParams where
   canaryNodes : List String := []
   nodeByName : List (String × Option NodeItem) := []
   podByNodeName : List (Option NodeItem × Option GPod) := []
+  /-- `PodToCleanUp`, `UnscheduledPods`: read by `ManageDeployment` / `ManageCanaryDeployment` (groups Deployment, Strategy) only -/
+  podToCleanUp : List (Option GPod) := []
+  unscheduledPods : List (Option GPod) := []
+  /-- `ReplicaSetStatus`: the role of the replica set, read by the role switch of `applyStrategy` (group Strategy) only -/
+  replicaSetStatus : String := ""
   deriving DecidableEq, Repr, Inhabited
 
 /-- `strategy.Result`: the flags, the status under construction, the pods to create / delete and the requeue request. -/
@@ -159,6 +164,8 @@ structure GResult where
   podsToCreate : List (Option NodeItem) := []
   podsToDelete : List (Option NodeItem) := []
   result : GReconcileResult := { requeue := false, requeueAfter := 0 }
+  /-- `UnscheduledNodesDueToResourcesConstraints`: written by `ManageDeployment` (group Deployment) only -/
+  unscheduledNodes : List String := []
   deriving DecidableEq, Repr, Inhabited
 
 namespace Go
@@ -191,6 +198,35 @@ def mapGetD {κ ν : Type} (eq : κ → κ → Bool) (m : List (κ × ν)) (k : 
 
 /-- the `ok` of `v, ok := m[k]`. -/
 def mapHas {κ ν : Type} (eq : κ → κ → Bool) (m : List (κ × ν)) (k : κ) : Bool := (mapFind eq m k).isSome
+
+/-- `delete(m, k)`: every entry whose key is `==` k goes (a Go map has at most one). -/
+def mapErase {κ ν : Type} (eq : κ → κ → Bool) (m : List (κ × ν)) (k : κ) : List (κ × ν) :=
+  m.filter (fun e => !eq e.1 k)
+
+/-- `xs[:n]`.  `none` = `n` negative or beyond the length: Go panics when `n` exceeds the *capacity*, and between the
+length and the capacity yields elements of the backing array beyond the length — a list has no backing array, so
+everything beyond the length is outside the translation. -/
+def sliceTo {α} (xs : List α) (n : Int) : Option (List α) :=
+  if 0 ≤ n ∧ n ≤ (xs.length : Int) then some (xs.take n.toNat) else none
+
+/-- `sort.SliceStable(xs, less)` (library code, not translated): the stable sort by `less` — `List.mergeSort` with
+`le a b := !less b a`.  `less` is the translated comparator as a function of the two *elements* compared, in the Option
+monad like everything else (`none` = the comparator panics).  The sorted list is THE result of a stable sort whenever
+`less` is a strict weak ordering (the contract of `sort.SliceStable`; the bridges prove it of the comparator they meet,
+`src_less_strictWeak`); for any other comparator the library's result depends on its algorithm and this mapping says
+nothing.  `none` when the comparator panics on some pair of elements of the slice: an over-approximation (the library does
+not compare every pair) — the bridges only ever use the `some` case, where no pair panics. -/
+def stableSortBy {α} (less : α → α → Option Bool) (xs : List α) : Option (List α) :=
+  if xs.all (fun a => xs.all fun b => (less a b).isSome) then
+    some (xs.mergeSort (fun a b => !((less b a).getD false)))
+  else none
+
+/-- `utilerrors.NewAggregate(errs)`: nil when the list holds no non-nil error, else an error (its text is not modelled
+beyond being some error: the first one's). -/
+def newAggregate (errs : List (Option String)) : Option String :=
+  match errs.filterMap id with
+  | [] => none
+  | e :: _ => some e
 
 /-- `==` on string keys. -/
 def strKey (a b : String) : Bool := a == b
